@@ -322,7 +322,9 @@ func addWild(t *rapid.T, set *ymodel.Set) []string {
 		name := fmt.Sprintf("w%d%s", i, strings.ReplaceAll(from.Name, "-", ""))
 		switch rapid.SampledFrom([]string{"late-augment", "choice-into-choice", "shorthand-choice", "not-supported"}).Draw(t, "wild-kind") {
 		case "late-augment":
-			tg := pick(func(x schema.Target) bool { return !plain[x.Node] && (holder(x.Node.Kind) || x.Node.Kind == ymodel.KChoice) }, "late-target")
+			tg := pick(func(x schema.Target) bool {
+				return !plain[x.Node] && (holder(x.Node.Kind) || x.Node.Kind == ymodel.KChoice)
+			}, "late-target")
 			if tg == nil {
 				continue
 			}
